@@ -218,7 +218,19 @@ func (e *signEnv) run(cs *signCase) {
 			tc.slow = false
 			return s
 		}
-		for try := 0; (slowNow() || (err != nil && strings.HasPrefix(err.Error(), "apply:"))) && try < 3; try++ {
+		hitsNow := func() []int {
+			if tc == nil {
+				return nil
+			}
+			tc.mu.Lock()
+			defer tc.mu.Unlock()
+			return append([]int{}, tc.hits...)
+		}
+		again := func() bool {
+			s := slowNow()
+			return s || (err != nil && (strings.HasPrefix(err.Error(), "apply:") || loadTimeout(err.Error(), seq, hitsNow())))
+		}
+		for try := 0; again() && try < 3; try++ {
 			// unrelated to timestamps: the dmg transformer's reader goroutine can still be reading the input file
 			// when Apply starts on the same descriptor (intermittent "apply: EOF"); repeat the whole operation
 			cs.Retried++
